@@ -200,6 +200,13 @@ func tryAlternativeECDSACurves(pub *ecdsa.PublicKey, digest, sig []byte, r, s *b
 			continue
 		}
 
+		// the public point was decoded for the specified curve: only re-interpret it on the
+		// alternative curve if it is a point of that curve (elliptic panics on invalid points)
+		if pub.X == nil || pub.Y == nil || !altCurve.IsOnCurve(pub.X, pub.Y) {
+			slog.Info("VerifySignature public key is not a point of the alternative curve", "curve", altCurveName)
+			continue
+		}
+
 		altPub := &ecdsa.PublicKey{
 			Curve: altCurve,
 			X:     pub.X,
